@@ -181,6 +181,21 @@ class Evaluator:
             return ("bool", s0.lower() == args[1][1].lower())
         return None
 
+    def _is_tuple_ctor(self, path, arity):
+        crate = path.split("::")[0]
+        try:
+            items = self.facts.items(crate)
+        except Exception:
+            return False
+        parent, _, name = path.rpartition("::")
+        for it in items:
+            if it.get("dk") == "Enum" and it.get("path") == parent:
+                return any(v.get("name") == name and len(v.get("fields", [])) == arity and arity > 0 for v in it.get("variants", []))
+            if it.get("dk") == "Struct" and it.get("path") == path:
+                vs = it.get("variants", [])
+                return bool(vs) and len(vs[0].get("fields", [])) == arity and arity > 0 and all(str(f.get("name", "")).isdigit() for f in vs[0]["fields"])
+        return False
+
     def _discr(self, variant):
         """Discriminant of a fieldless enum variant (from the item facts)."""
         if not hasattr(self, "_discrs"):
@@ -687,6 +702,14 @@ class Evaluator:
             crate = path.lstrip("<&").split("::")[0]
             if crate in self.inline_crates and path in self.facts.crate(crate)["_bodies"]:
                 return self.call_fn(crate, path, args)
+            if path.endswith("Option::Some") and len(args) == 1:
+                return ("some", args[0])
+            if path.endswith("Result::Ok") and len(args) == 1:
+                return ("ok", args[0])
+            if path.endswith("Result::Err") and len(args) == 1:
+                return ("err", args[0])
+            if self._is_tuple_ctor(path, len(args)):
+                return ("ctor", path) + tuple(args)          # a tuple-variant / tuple-struct constructor used as a function
         if clo[0] != "closure":
             raise Unrecognised("call of a non-closure value")
         node, cenv = clo[1], clo[2]
@@ -822,7 +845,53 @@ class Evaluator:
             v = self._str_method(short, cal, args, e)
             if v is not None:
                 return v
+        if self.concrete_strings and short == "new" and not args and any(x in str(e.get("ty", "")) for x in ("VecDeque<", "Vec<")):
+            return ("array",)
         if args and args[0][0] == "array" and self.concrete_strings:
+            seq = args[0]
+            if short == "map" and len(args) == 2:
+                return ("array",) + tuple(self.apply(args[1], [x]) for x in seq[1:])
+            if short == "filter_map" and len(args) == 2:
+                out_ = [self.apply(args[1], [x]) for x in seq[1:]]
+                return ("array",) + tuple(o[1] for o in out_ if o[0] == "some")
+            if short == "collect" and len(args) == 1:
+                ty = str(e.get("ty", ""))
+                if ty.startswith("core::option::Option<"):
+                    if all(x[0] == "some" for x in seq[1:]):
+                        return ("some", ("array",) + tuple(x[1] for x in seq[1:]))
+                    if all(x[0] in ("some", "none") for x in seq[1:]):
+                        return ("none",)
+                    raise Unrecognised("collect into Option of values that are not known Options")
+                if ty.startswith("core::result::Result<"):
+                    for x in seq[1:]:
+                        if x[0] == "err":
+                            return x
+                    if all(x[0] == "ok" for x in seq[1:]):
+                        return ("ok", ("array",) + tuple(x[1] for x in seq[1:]))
+                    raise Unrecognised("collect into Result of values that are not known Results")
+                return seq
+            if short in ("pop_front", "next") and len(args) == 1:
+                pl = hir.peel(hir.simp(e["args"][0]))
+                if hir.place_str(pl) is None:
+                    raise Unrecognised(f"{short} on a temporary sequence")
+                self._store(pl, ("array",) + tuple(seq[2:]), env)
+                return ("some", seq[1]) if len(seq) > 1 else ("none",)
+            if short in ("pop_back", "pop", "next_back") and len(args) == 1:
+                pl = hir.peel(hir.simp(e["args"][0]))
+                if hir.place_str(pl) is None:
+                    raise Unrecognised(f"{short} on a temporary sequence")
+                self._store(pl, seq[:-1] if len(seq) > 1 else seq, env)
+                return ("some", seq[-1]) if len(seq) > 1 else ("none",)
+            if short in ("push_back", "push") and len(args) == 2:
+                pl = hir.peel(hir.simp(e["args"][0]))
+                if hir.place_str(pl) is None:
+                    raise Unrecognised(f"{short} on a temporary sequence")
+                self._store(pl, seq + (args[1],), env)
+                return ("unit",)
+            if short == "is_empty" and len(args) == 1:
+                return ("bool", len(seq) == 1)
+            if short in ("front", "first") and len(args) == 1:
+                return ("some", seq[1]) if len(seq) > 1 else ("none",)
             if short == "all" and len(args) == 2:
                 return ("bool", all(self.truth(self.apply(args[1], [x])) for x in args[0][1:]))
             if short == "any" and len(args) == 2:
@@ -843,6 +912,15 @@ class Evaluator:
             return ("bool", 48 <= args[0][1] <= 57)
         if short == "from_str_radix" and len(args) == 2 and args[0][0] == "str" and args[1][0] == "int" and self.concrete_strings:
             return self._parse_int(args[0][1], args[1][1], str(e.get("ty", "")))
+        if cal.endswith("core::default::Default>::default") and not args:
+            import re as _re
+            m_ = _re.match(r"^<(\w+) as core::default::Default>::default$", cal)
+            if m_ and m_.group(1) in INT_TYS:
+                return ("int", 0)
+            if m_ and m_.group(1) == "bool":
+                return ("bool", False)
+            if cal.startswith("<core::option::Option<"):
+                return ("none",)
         if cal.endswith("core::convert::Into<U>>::into") and len(args) == 1:
             # the blanket `Into`: the `From` impl of the target type for the argument's type
             src_ty = str(hir.simp(e["args"][0]).get("ty", "")).lstrip("&")
